@@ -16,7 +16,9 @@ var alphabet = []byte{'/', '=', '-', '0', '7', 'a', 0xC3, 0xA9, '+'}
 
 var keys = []string{".name", ".fullname", "/gomaxprocs", "/a", "/", "/a=", "/0", "/-7", "k", "missing", "", ".config", ".unit",
 	// near-misses of the reserved spellings: ordinary keys
-	"/GOMAXPROCS", "/Gomaxprocs", "/gomaxprocs=", ".Name", ".NAME", ".fullName", "name", "/.name"}
+	"/GOMAXPROCS", "/Gomaxprocs", "/gomaxprocs=", ".Name", ".NAME", ".fullName", "name", "/.name",
+	// keys with an inner '/' or '=': no single segment can carry them
+	"/a/0", "/a/", "//a", "/a=1/0", "/0/a"}
 
 var excludes = [][]string{
 	{"/a"}, {".name"}, {"/gomaxprocs"}, {"/a", "/0", ".name"}, {"k", "/"}, {"/a="}, {"/gomaxprocs", "/a"},
@@ -221,7 +223,7 @@ func reuseCase(id int, names [][]byte, key string) {
 	hx.Printf("sobs %d %s fm=%s\n", id, line, fm)
 }
 
-var cfgVals = []string{"", "x", "xy", "abc", "abcdef", "0123456789abcdef", "v w", "é"}
+var cfgVals = []string{"", "x", "xy", "abc", "abcdef", "0123456789abcdef", "v w", "é", " ", " x", "x ", "\t", "\u00a0", " x y "}
 
 func main() {
 	defer hx.Flush()
@@ -241,7 +243,9 @@ func main() {
 	}
 	r := hx.NewRand(5)
 	id := 0
-	cfgs := [][][2]string{nil, {{"k", "v"}}, {{"a", "1"}, {"k", "x y"}}, {{"missing2", "z"}}}
+	cfgs := [][][2]string{nil, {{"k", "v"}}, {{"a", "1"}, {"k", "x y"}}, {{"missing2", "z"}},
+		// values with blanks at the ends, blank-only values, non-ASCII blanks: stored verbatim
+		{{"k", " v1 "}}, {{"k", " "}}, {{"k", "\t"}, {"a", "x\t"}}, {{"k", "\u00a0x"}}, {{"k", "\u00a0"}}, {{"a", " "}, {"k", "v "}}}
 	// exhaustive short names
 	maxLen := 4
 	if hx.Tier() == "thorough" {
